@@ -91,7 +91,7 @@ sign_transcript!(sign_transcript_sha1, Sha1AuthKey, 20, 2u8, 24);
 macro_rules! localize_transcript {
     ($name:ident, $ks:expr, $alg:expr, $el:expr) => {
         #[kani::proof]
-        #[kani::unwind(34)]
+        #[kani::unwind(42)]
         fn $name() {
             let key: [u8; $ks] = kani::any();
             let engine: [u8; $el] = kani::any();
@@ -120,9 +120,9 @@ macro_rules! localize_transcript {
         }
     };
 }
-//@ C12 quick | localize (MD5): digest input == Ku || engineID || Ku for any 16-octet key and any 12-octet engine id; output == first 16 digest octets
+//@ C09,C12 quick | localize (MD5): digest input == Ku || engineID || Ku for any 16-octet key and any 12-octet engine id; output == first 16 digest octets
 localize_transcript!(localize_md5_12, 16, 1u8, 12);
-//@ C12 quick | localize (SHA-1): any 20-octet key, any 32-octet engine id (72 octets hashed); output == all 20 digest octets
+//@ C09,C12 quick | localize (SHA-1): any 20-octet key, any 32-octet engine id (72 octets hashed); output == all 20 digest octets
 localize_transcript!(localize_sha1_32, 20, 2u8, 32);
 //@ C12 quick | localize (SHA-1): empty engine id
 localize_transcript!(localize_sha1_0, 20, 2u8, 0);
@@ -260,3 +260,5 @@ key_validation!(kv_sha1_master_20, 0x42u8, 20, 20);
 key_validation!(kv_sha1_master_16, 0x42u8, 20, 16);
 //@ C12 quick | as_key_type, key type bits 11 (undefined): refused
 key_validation!(kv_md5_badtype, 0xc1u8, 16);
+//@ C09,C12 quick | localize (MD5): 40-octet engine id (longer than the usual 32): ALL engine id octets are hashed
+localize_transcript!(localize_md5_40, 16, 1u8, 40);
